@@ -647,9 +647,16 @@ def run_C16(case):
                         if w > upper.get(pair, 0):
                             raise Fail("C16.network_upper", "network query (out=%s, auto=%s) reports %d for %r, at most %d could qualify at some moment; schedule %s" % (out, auto, w, pair, upper.get(pair, 0), short(sch.schedule, 300)))
                     # page tallies (fast variant only)
+                    ever = {}  # page -> webentity ids it resolved to at some snapshot of the query's lifetime
+                    if k in ("network", "network_blocking"):
+                        universe_ = set()
+                        for sn in life:
+                            universe_.update(sn["pages"])
+                        for l in universe_:
+                            ever[l] = {s2["pref"].get(resolve_in(s2["pref"], l)) for s2 in life}
                     for a, c in (tk.result.items() if k in ("network", "network_blocking") else ()):
                         tot = sum(v for b, v in c.items() if isinstance(b, str))
-                        cand = {l for sn in life for l in sn["pages"] if any(s2["pref"].get(resolve_in(s2["pref"], l)) == a for s2 in life)}
+                        cand = {l for l, ws in ever.items() if a in ws}
                         res.evals["C16.network_tallies"] += 1
                         if tot > len(cand):
                             raise Fail("C16.network_tallies", "network query counts %d pages for webentity %r, only %d ever qualified" % (tot, a, len(cand)))
